@@ -20,7 +20,9 @@ def setup(run, fn):
     c = st.alloc(kind='dict', dom=dom, val=val, ksort=KS, default=None, wrap=lambda t: VRef(t))
     st.objf['self'] = {'_attribute_group': VDict(c)}; st.env['self'] = VObj('self')
     st.ghost['ff'] = {'use': lambda r: VStr(use(r)), 'fixed': lambda r: VOpt(fixed_none(r), VStr(fixed_v(r))),
-                      'default': lambda r: VOpt(default_none(r), VStr(default_v(r)))}
+                      'default': lambda r: VOpt(default_none(r), VStr(default_v(r))),
+                      # XsdAttribute.value_constraint (a one-line property of the declaration, inlined): the fixed value if there is one, else the default
+                      'value_constraint': lambda r: VOpt(z3.And(fixed_none(r), default_none(r)), VStr(z3.If(fixed_none(r), default_v(r), fixed_v(r))))}
     ex.callees['isinstance'] = lambda e, s, r, a, k: VBool(is_attr(a[0].t)); ex.names['XsdAttribute'] = OPAQUE
     orig_truthy, orig_cmp = ex.truthy, ex.cmp
     ex.truthy = lambda s, v: z3.And(z3.Not(key_none(v.t)), z3.Length(key_str(v.t)) > 0) if isinstance(v, VKey) else orig_truthy(s, v)
@@ -90,9 +92,30 @@ def mk_ivc(ud):
         pre = z3.BoolVal(True); outs = ex.run(st, pre)
         run.post(ex, outs, pre, {'yields-exactly-the-value-constraints': lambda kind, v, s: z3.And(
             z3.ForAll([q], z3.And(s.ghost['out'][q] == spec_in(q), z3.Implies(s.ghost['out'][q], s.ghost['outv'][q] == spec_val(q)))), z3.Not(s.ghost['twice']))})
+
+    @t.concrete
+    def _(inp):
+        # the real generator on a real attribute group: plain fixed / default declarations, a reference that adds its own fixed value to a global declaration with a default,
+        # a reference that inherits one, an unconstrained attribute and a wildcard
+        import xmlschema
+        s = _IVC.get('s') or _IVC.setdefault('s', xmlschema.XMLSchema10('''<xs:schema xmlns:xs="http://www.w3.org/2001/XMLSchema" targetNamespace="urn:t" xmlns:t="urn:t">
+ <xs:attribute name="g" type="xs:string" default="dflt"/><xs:attribute name="h" type="xs:string" fixed="hh"/><xs:attribute name="k" type="xs:string" default="kk"/>
+ <xs:element name="e"><xs:complexType><xs:attribute ref="t:g" fixed="fx"/><xs:attribute ref="t:h"/><xs:attribute ref="t:k"/><xs:attribute name="f" fixed="7"/><xs:attribute name="d" default="dd"/>
+  <xs:attribute name="o"/><xs:anyAttribute namespace="##other" processContents="lax"/></xs:complexType></xs:element></xs:schema>'''))
+        grp = s.elements['e'].type.attributes
+        got = list(grp.iter_value_constraints(ud))
+        want = {'{urn:t}g': 'fx', '{urn:t}h': 'hh', 'f': '7'}
+        if ud: want.update({'{urn:t}k': 'kk', 'd': 'dd'})
+        ok = dict(got) == want and len(got) == len(want)
+        return dict(ok=ok, observed=got, required=want, failed=[] if ok else ['yields-exactly-the-value-constraints'])
+
+    @t.scope
+    def _(tier, rng):
+        yield {}
     return t
 
 
+_IVC = {}
 mk_ivc(True)
 mk_ivc(False)
 
